@@ -185,6 +185,7 @@ pub fn run_requests(reqs: Vec<Value>, jobs: usize, timeout: Duration) -> Vec<Run
 #[derive(Deserialize, Clone, Debug)]
 pub struct Finding {
     pub id: String,
+    /// one property id or a comma-separated list of ids the signature applies to
     pub property: String,
     /// "open" (recorded finding: suppress + print KNOWN-FINDING) or "fixed" (suppresses nothing)
     pub status: String,
@@ -225,7 +226,7 @@ impl Findings {
         };
         let (vh, vt) = split(s);
         self.findings.iter().find(|f| {
-            if f.status != "open" || f.property != property || f.signature.is_empty() {
+            if f.status != "open" || !f.property.split(',').any(|p| p.trim() == property) || f.signature.is_empty() {
                 return false;
             }
             let (fh, ft) = split(&f.signature);
